@@ -12,15 +12,23 @@
    the constructor and the reads handed out.
 4. binding self-test: corrupted copies of accepted traces must be rejected.
 
+Every scenario also carries an environment `env` (none of it changes what the property layer expects): the stream the
+file belongs to (3B2 / 3A / NP2.4 AP, LF, nidq), how the object is obtained (Path, str, the .meta file, meta_file= /
+ch_file= elsewhere, symbolic links, default keywords, a `with` block), the form of the metadata (fileSizeBytes absent /
+equal to the size on disk, fileTimeSecs written with 3 decimals), stale files of other recordings next to the one
+opened, another reader alive and opened in between, the API each read goes through, and the history of the object
+(constructed early; an open() that failed while the file was away; opened before, with and without close(), on
+another stage of the file).
+
 Numeric clause decided by projection (not by TLC): `rl * fs` and `meta.fileTimeSecs * fs` are floats; they
 are projected to a frame count when within 1e-6 (relative) of an integer, else to a flag value.
 """
 import copy
+import functools
 import json
 import logging
 import os
 import random
-import shutil
 from pathlib import Path
 
 import numpy as np
@@ -29,6 +37,7 @@ from vkit import metagen, tlc, tracecheck
 
 MOD, CFG = "trace/ReaderOpenTrace.tla", "trace/ReaderOpenTrace.cfg"
 FS_ALL = [30000, 2500, 30003.0003, 32768.5]
+FS_MORE = FS_ALL + [30000.0185, 2500.00154, 25000.0, 19737.0]      # drawn from where a scenario set draws its rate
 KIND3B = "3B2"
 
 
@@ -41,20 +50,35 @@ def _fts_text(m, fs):
 
 
 _META_CACHE = {}
+# stream -> (probe kind of vkit.metagen or None for nidq, metagen stream, file name)
+STREAMS = {"ap": ("3B2", "ap", "rec_g0_t0.imec0.ap.bin"), "lf": ("3B2", "lf", "rec_g0_t0.imec0.lf.bin"),
+           "np2": ("NP2.4", "ap", "rec_g0_t0.imec0.ap.bin"), "3A": ("3A", "ap", "rec_g0_t0.imec.ap.bin"),
+           "nidq": (None, None, "rec_g0_t0.nidq.bin")}
 
 
-def _meta_text(nc, m, fs):
-    """metadata of an imec AP stream with nc - 1 data channels + 1 sync channel announcing m frames
-    (m = -1: metadata as it is while the acquisition runs, without fileSizeBytes / fileTimeSecs)"""
-    key = (nc, fs)
+def _meta_text(nc, m, fs, stream="ap", form="exact", size=None, fts_text=None):
+    """metadata of a stream with nc - 1 data channels + 1 sync channel announcing m frames
+    (m = -1: metadata as it is while the acquisition runs, without fileSizeBytes / fileTimeSecs).
+    form: exact | nofsb (no fileSizeBytes key) | fsbsize (fileSizeBytes = `size`, the bytes on disk);
+    fts_text: the fileTimeSecs value as written (default: the shortest decimal of m / fs)"""
+    key = (nc, fs, stream)
     if key not in _META_CACHE:
-        sites = metagen.dense_sites(KIND3B)[:nc - 1]
-        txt, _ = metagen.make_meta(KIND3B, sites, ns=12345, fs=fs, file_time_secs="@FTS@", file_size_bytes="@FSB@")
+        kind, mstream, _ = STREAMS[stream]
+        if stream == "nidq":
+            txt, _ = metagen.make_nidq_meta(0, 0, nc - 1, 1, ns=12345, fs=fs, file_time_secs="@FTS@")
+            txt = txt.replace(f"fileSizeBytes={nc * 12345 * 2}\n", "fileSizeBytes=@FSB@\n")
+        else:
+            sites = (metagen.dense_sites(kind, nshank=4) if stream == "np2" else metagen.dense_sites(kind))[:nc - 1]
+            txt, _ = metagen.make_meta(kind, sites, stream=mstream, ns=12345, fs=fs, file_time_secs="@FTS@", file_size_bytes="@FSB@")
+        assert txt.count("@FTS@") == 1 and txt.count("@FSB@") == 1
         _META_CACHE[key] = txt
     txt = _META_CACHE[key]
     if m < 0:
         return "\n".join(ln for ln in txt.splitlines() if "@FTS@" not in ln and "@FSB@" not in ln) + "\n"
-    return txt.replace("@FTS@", _fts_text(m, fs)).replace("@FSB@", str(m * nc * 2))
+    if form == "nofsb":
+        txt = "\n".join(ln for ln in txt.splitlines() if "@FSB@" not in ln) + "\n"
+    fsb = size if (form == "fsbsize" and size is not None) else m * nc * 2
+    return txt.replace("@FTS@", fts_text or _fts_text(m, fs)).replace("@FSB@", str(fsb))
 
 
 def _proj_frames(x):
@@ -108,34 +132,231 @@ def _expected(content, q, nc, sel):
     return content[i]
 
 
-def observe(binfile, case, fs, nc, content, selectors, early=None):
-    """opens `binfile` with the real code and records one trace.  `early` = bytes the file holds while a Reader(open=False)
-    is constructed; the file as described by `case` is put in place afterwards and the same object is opened then"""
+READ_APIS_SLICE = ["getitem", "getitem2", "read", "readsync", "read_samples", "read_sync"]
+READ_APIS_INDEX = ["getitem", "getitem2", "read"]
+DEFAULT_READ = ("slice", 0, 10000)      # what sr.read() without arguments selects
+
+
+def _sync_bits(col):
+    """the 16 digital lines of the sync words of an imec stream, least significant first"""
+    return ((np.asarray(col).astype(np.uint16)[:, None] >> np.arange(16, dtype=np.uint16)) & 1).astype(np.int8)
+
+
+def _read(sr, sel, api):
+    """one read through the public API `api`: (data or None, sync or None)"""
+    if sel[0] == "slice":
+        sl = slice(sel[1], sel[2])
+        if api == "getitem2":
+            return sr[sl, :], None
+        if api == "read":
+            return sr.read(nsel=sl, sync=False), None
+        if api == "readsync":
+            return sr.read(sl)
+        if api == "read_samples":
+            return sr.read_samples(sel[1], sel[2])
+        if api == "read_sync":
+            return None, sr.read_sync(sl)
+        if api == "read_default":
+            assert tuple(sel) == DEFAULT_READ
+            return sr.read()
+        return sr[sl], None
+    if api == "getitem2":
+        return sr[sel[1], :], None
+    if api == "read":
+        return sr.read(nsel=sel[1], sync=False), None
+    return sr[sel[1]], None
+
+
+def _build(cls, target, aux, style, quiet, deferred):
+    """the constructor call in the spelling `style`"""
+    kw = {}
+    if style != "default":
+        kw["sort"] = False
+    if quiet or style != "default":
+        kw["ignore_warnings"] = bool(quiet)
+    if deferred:
+        kw["open"] = False
+    arg = target
+    if style == "str":
+        arg = str(target)
+    elif style == "meta":
+        arg = aux["meta"]
+    elif style == "metakw":
+        kw["meta_file"] = aux["meta"]
+    elif style == "chkw":
+        kw["ch_file"] = aux["ch"]
+    return cls(arg, **kw)
+
+
+def _arrange(binfile, style):
+    """puts the companions where `style` wants them: (path handed to the constructor, aux paths)"""
+    aux, target = {}, binfile
+    if style == "link":
+        d = binfile.parent / "linked"
+        d.mkdir(exist_ok=True)
+        for f in (binfile, binfile.with_suffix(".meta"), binfile.with_suffix(".ch")):
+            if f.exists():
+                (d / f.name).symlink_to(f)
+        target = d / binfile.name
+    elif style == "metakw":
+        d = binfile.parent / "elsewhere"
+        d.mkdir(exist_ok=True)
+        aux["meta"] = d / "header.meta"
+        binfile.with_suffix(".meta").rename(aux["meta"])
+    elif style == "chkw":
+        d = binfile.parent / "elsewhere"
+        d.mkdir(exist_ok=True)
+        aux["ch"] = d / "chunks.ch"
+        binfile.with_suffix(".ch").rename(aux["ch"])
+    elif style == "meta":
+        aux["meta"] = binfile.with_suffix(".meta")
+    return target, aux
+
+
+def _put(files):
+    for f, b in files.items():
+        Path(f).write_bytes(b)
+
+
+def _do_reads(sr, selectors, apis, content, q, nc, stream):
+    """-> (reads [[kind, a, b, rows observed, values equal the file]], first unexpected exception)"""
+    out, exc = [], ""
+    s2v = sr.sample2volts
+    for j, sel in enumerate(selectors):
+        api = apis[j] if apis else "getitem"
+        exp = _expected(content, q, nc, sel)
+        try:
+            got, sy = _read(sr, sel, api)
+        except IndexError:
+            out.append([sel[0], sel[1], sel[2], -1, True])
+            continue
+        except Exception as e:
+            out.append([sel[0], sel[1], sel[2], -3, False])
+            exc = exc or f"read:{type(e).__name__}"
+            continue
+        rows, eq = -3, True
+        if got is not None:
+            got = np.asarray(got)
+            rows = int(got.shape[0]) if sel[0] == "slice" else 1
+            eq = False
+            if exp is not None and got.shape == exp.shape:
+                volts = exp.astype(np.float32)
+                volts *= s2v
+                eq = bool(np.array_equal(got, volts))
+        if sy is not None:
+            # the sync part of a read covers the same samples: as many rows, the bits of the sync word of each
+            sy = np.asarray(sy)
+            if got is None:
+                rows = int(sy.shape[0])
+            elif sy.shape[0] != rows:
+                rows = -3
+            if stream != "nidq" and exp is not None:
+                eq = eq and bool(np.array_equal(sy, _sync_bits(exp[:, -1])))
+        out.append([sel[0], sel[1], sel[2], rows, eq])
+    return out, exc
+
+
+def _in_child(fn, selectors):
+    """fn() evaluated in a forked copy of this process; a copy killed by a signal counts as reads that all failed"""
+    import signal
+    rd, wr = os.pipe()
+    pid = os.fork()
+    if pid == 0:
+        code = 1
+        try:
+            os.close(rd)
+            with os.fdopen(wr, "w") as fid:
+                json.dump(fn(), fid)
+            code = 0
+        finally:
+            os._exit(code)
+    os.close(wr)
+    with os.fdopen(rd) as fid:
+        data = fid.read()
+    _, status = os.waitpid(pid, 0)
+    if os.WIFSIGNALED(status):
+        return [[x[0], x[1], x[2], -3, False] for x in selectors], f"read:{signal.Signals(os.WTERMSIG(status)).name}"
+    if not os.WIFEXITED(status) or os.WEXITSTATUS(status) != 0:
+        raise tlc.TLCError("C11: the forked reader process failed")
+    out, exc = json.loads(data)
+    return out, exc
+
+
+def observe(binfile, case, fs, nc, content, selectors, early=None, env=None, apis=None):
+    """opens `binfile` with the real code and records one trace.  `early` = {file: bytes} the recording consists of at an
+    earlier moment of the object's life (constructed with open=False then, or opened a first time then, see env.hist); the
+    files as described by `case` are put in place afterwards and the same object is opened (again)"""
     import spikeglx
+    env = env or {}
     kind, q = case["kind"], case["q"]
+    style, hist, stream = env.get("style", "path"), env.get("hist", "deferred"), env.get("stream", "ap")
     t = dict(case)
     t.setdefault("cq", -1)
     t.setdefault("cr", 0)
     t.update({"outcome": "raised", "exc": "", "ns": -1, "rows": -1, "ncok": False, "rlf": -1, "ftsq": -1,
-              "ftsw": True, "reads": [], "fs": repr(fs), "nc": nc})
+              "ftsw": True, "reads": [], "fs": repr(fs), "nc": nc,
+              "env": "/".join([stream, style, env.get("form", "exact") + ("+fts3" if env.get("fts_text") else "")]
+                              + [k for k in ("sib", "other") if env.get(k)] + ([hist] if early is not None else []))})
     cls = spikeglx.OnlineReader if kind == "online" else spikeglx.Reader
-    sr = None
+    binfile = Path(binfile)
+    target, aux = _arrange(binfile, style)
+    quiet = bool(case["quiet"])
+    sr, other, entered = None, None, False
     try:
+        if env.get("other"):
+            other = spikeglx.Reader(env["other"], open=False)
         if early is not None:
-            final = Path(binfile).read_bytes()
-            Path(binfile).write_bytes(early)
-            sr = cls(binfile, sort=False, ignore_warnings=bool(case["quiet"]), open=False)
-            Path(binfile).write_bytes(final)
-            sr.open()
+            early = {(aux["ch"] if (Path(f).suffix == ".ch" and "ch" in aux) else f): b for f, b in early.items()}
+            final = {f: Path(f).read_bytes() for f in early}
+            _put(early)
+            if hist in ("reopen", "reclose"):
+                # opened a first time on the earlier stage of the file; what the object then holds of the duration is the
+                # `meta` of the step that is judged
+                sr = _build(cls, target, aux, style, quiet, False)
+                fts = sr.meta.get("fileTimeSecs")
+                t["meta"] = _proj_frames(None if fts is None else fts * fs)[0]
+                if hist == "reclose":
+                    sr.close()
+            else:
+                sr = _build(cls, target, aux, style, quiet, True)
+            if other is not None:
+                other.open()
+            if hist == "failed":
+                # the file (the chunk table of a compressed file) is away while the first open() runs
+                gone = aux.get("ch", binfile.with_suffix(".ch")) if kind == "cbin" else binfile
+                away = gone.with_name(gone.name + ".away")
+                if gone.exists():
+                    gone.rename(away)
+                try:
+                    sr.open()
+                except Exception:
+                    pass
+                if away.exists():
+                    away.unlink()
+            _put(final)
+            if style == "with" and hist == "deferred":
+                sr.__enter__()
+                entered = True
+            else:
+                sr.open()
+        elif style == "with":
+            sr = _build(cls, target, aux, style, quiet, True)
+            if other is not None:
+                other.open()
+            sr.__enter__()
+            entered = True
         else:
-            sr = cls(binfile, sort=False, ignore_warnings=bool(case["quiet"]))
+            sr = _build(cls, target, aux, style, quiet, False)
+            if other is not None:
+                other.open()
     except Exception as e:  # the property says the constructor succeeds
         t["exc"] = type(e).__name__
-        if sr is not None:
-            try:
-                sr.close()
-            except Exception:
-                pass
+        for o in (sr, other):
+            if o is not None:
+                try:
+                    o.close()
+                except Exception:
+                    pass
         return t
     try:
         t["outcome"] = "opened"
@@ -145,39 +366,81 @@ def observe(binfile, case, fs, nc, content, selectors, early=None):
         t["rlf"] = _proj_frames(sr.rl * fs)[0] if _proj_frames(sr.rl * fs)[1] else -2
         fts = sr.meta.get("fileTimeSecs")
         t["ftsq"], t["ftsw"] = _proj_frames(None if fts is None else fts * fs)
-        s2v = sr.sample2volts
-        for sel in selectors:
-            exp = _expected(content, q, nc, sel)
-            try:
-                got = sr[slice(sel[1], sel[2])] if sel[0] == "slice" else sr[sel[1]]
-            except IndexError:
-                t["reads"].append([sel[0], sel[1], sel[2], -1, True])
-                continue
-            except Exception as e:
-                t["reads"].append([sel[0], sel[1], sel[2], -3, False])
-                t["exc"] = t["exc"] or f"read:{type(e).__name__}"
-                continue
-            got = np.asarray(got)
-            rows = int(got.shape[0]) if sel[0] == "slice" else 1
-            eq = False
-            if exp is not None and got.shape == exp.shape:
-                eq = bool(np.array_equal(got, exp.astype(np.float32) * s2v))
-            t["reads"].append([sel[0], sel[1], sel[2], rows, eq])
+        reads = functools.partial(_do_reads, sr, selectors, apis, content, q, nc, stream)
+        # an object that was opened before may, after a change of open(), still look at the map of the earlier stage of the
+        # file (closed, or longer than the file now is): touching it kills the interpreter instead of raising, so these
+        # reads are made by a forked copy of this process
+        t["reads"], exc = _in_child(reads, selectors) if (early is not None and hist in ("reopen", "reclose")) else reads()
+        t["exc"] = t["exc"] or exc
     finally:
-        sr.close()
+        if entered:
+            sr.__exit__(None, None, None)
+        else:
+            sr.close()
+        if other is not None:
+            other.close()
         del sr
     return t
 
 
-def make_small(folder, case, fs, rng):
+_CBIN_CACHE = {}
+
+
+def _compress(folder, data, nc, fs, name="tmp_stream"):
+    """(cbin bytes, ch bytes) of the frames `data`, in chunks of 5 frames"""
+    import mtscomp
+    d = Path(folder) / "_compress"
+    d.mkdir(parents=True, exist_ok=True)
+    raw = d / f"{name}.bin"
+    _clean(d)
+    np.ascontiguousarray(data).tofile(raw)
+    mtscomp.compress(raw, raw.with_suffix(".cbin"), raw.with_suffix(".ch"), sample_rate=fs, n_channels=nc, dtype=np.int16,
+                     chunk_duration=5 / fs, n_threads=1, check_after_compress=False)
+    out = raw.with_suffix(".cbin").read_bytes(), raw.with_suffix(".ch").read_bytes()
+    _clean(d)
+    return out
+
+
+def _clean(folder):
+    """removes every file and link under `folder` (the directories stay: removing them is the slow part)"""
+    if not os.path.isdir(folder):
+        return
+    for root, _, files in os.walk(folder):
+        for f in files:
+            os.unlink(os.path.join(root, f))
+
+
+def _stale_siblings(folder, binfile, nc, fs, q, same_stem, stream):
+    """files of other recordings an earlier session left around the one that is opened: a second probe's recording and
+    (same_stem) the other form (.cbin + .ch next to a .bin, a .bin next to a .cbin) of another, longer recording"""
+    gen = np.random.default_rng(q + nc)
+    oth = metagen.random_int16(gen, q + 7, nc)
+    decoy = binfile.with_name(binfile.name.replace("rec_g0", "rec_g1"))
+    decoy.with_suffix(".bin").write_bytes(oth.tobytes()[:-3])
+    decoy.with_suffix(".meta").write_text(_meta_text(nc, q + 9, fs, stream))
+    if not same_stem:
+        return
+    if binfile.suffix == ".cbin":
+        binfile.with_suffix(".bin").write_bytes(oth.tobytes()[:-1])
+    else:
+        if (nc, fs) not in _CBIN_CACHE:
+            _CBIN_CACHE[(nc, fs)] = _compress(folder, metagen.random_int16(gen, 11, nc), nc, fs)
+        cb, ch = _CBIN_CACHE[(nc, fs)]
+        binfile.with_suffix(".cbin").write_bytes(cb)
+        binfile.with_suffix(".ch").write_bytes(ch)
+
+
+def make_small(folder, case, fs, rng, env=None):
     """a real file of q * F + r bytes with random content; returns (binfile, nc, content)"""
+    env = env or {}
     F, q, r = case["F"], case["q"], case["r"]
     nc = F // 2
+    stream = env.get("stream", "ap")
     folder = Path(folder)
     folder.mkdir(parents=True, exist_ok=True)
     data = metagen.random_int16(rng, q + 1, nc)
     data[:, -1] = rng.integers(0, 2 ** 15, size=q + 1)
-    binfile = folder / "rec_g0_t0.imec0.ap.bin"
+    binfile = folder / STREAMS[stream][2]
     if case["kind"] == "cbin":
         import mtscomp
         np.ascontiguousarray(data[:q]).tofile(binfile)
@@ -194,24 +457,35 @@ def make_small(folder, case, fs, rng):
             rd = mtscomp.Reader()
             rd.open(cbin, binfile.with_suffix(".ch"))
             sub = folder / "chopped"
-            shutil.rmtree(sub, ignore_errors=True)
+            _clean(sub)
             rd.chop(chop, out=sub / cbin.name)
             rd.close()
             cbin = sub / cbin.name
         binfile = cbin
     else:
         binfile.write_bytes(data.tobytes()[:q * F + r])
-    binfile.with_suffix(".meta").write_text(_meta_text(nc, case["meta"], fs))
+    binfile.with_suffix(".meta").write_text(_meta_text(nc, env.get("m0", case["meta"]), fs, stream, env.get("form", "exact"),
+                                                       q * F + r, env.get("fts_text")))
+    if env.get("sib"):
+        _stale_siblings(folder, binfile, nc, fs, q, env.get("style") != "meta", stream)
+    if env.get("other"):
+        # another recording a second reader object looks at while the judged one is constructed and opened
+        o = folder / "bystander" / "oth_g0_t0.imec0.ap.bin"
+        o.parent.mkdir(exist_ok=True)
+        o.write_bytes(metagen.random_int16(rng, 12, 3).tobytes()[:-1])
+        o.with_suffix(".meta").write_text(_meta_text(3, 4, fs))
+        env["other"] = str(o)
     return binfile, nc, data
 
 
-def make_sparse(folder, case, fs, rng):
+def make_sparse(folder, case, fs, rng, env=None):
     """a sparse file of q * F + r bytes (q up to 1e9): zeros except the first / last frames and the trailing bytes"""
+    env = env or {}
     F, q, r = case["F"], case["q"], case["r"]
     nc = F // 2
     folder = Path(folder)
     folder.mkdir(parents=True, exist_ok=True)
-    binfile = folder / "big_g0_t0.imec0.ap.bin"
+    binfile = folder / STREAMS[env.get("stream", "ap")][2].replace("rec_", "big_")
     marks = {f: metagen.random_int16(rng, 1, nc)[0] for f in {0, 1, q - 2, q - 1} if 0 <= f < q}
     with open(binfile, "wb") as fid:
         fid.truncate(q * F + r)
@@ -222,31 +496,64 @@ def make_sparse(folder, case, fs, rng):
             fid.seek(q * F)
             fid.write(bytes([0x7f]) * r)
     assert os.stat(binfile).st_size == q * F + r
-    binfile.with_suffix(".meta").write_text(_meta_text(nc, case["meta"], fs))
+    binfile.with_suffix(".meta").write_text(_meta_text(nc, case["meta"], fs, env.get("stream", "ap")))
     return binfile, nc, _Sparse(q, nc, marks)
 
 
+def _apis(sc, env, sels, q):
+    """the public API each read goes through (None: plain indexing), drawn from the scenario's own seed"""
+    if not env.get("apis"):
+        return sels, None
+    ra = random.Random(sc.get("seed", 0))
+    if not sc.get("sparse"):
+        sels = sels + [DEFAULT_READ]
+    apis = []
+    for j, sel in enumerate(sels):
+        if tuple(sel) == DEFAULT_READ and j == len(sels) - 1 and not sc.get("sparse"):
+            api = "read_default"
+        else:
+            api = ra.choice(READ_APIS_SLICE if sel[0] == "slice" else READ_APIS_INDEX)
+        if env.get("stream") == "nidq" and sel[0] == "slice" and min(sel[2], q) - min(sel[1], q) <= 0 and api not in ("getitem", "getitem2"):
+            # a nidq stream with analog sync lines: the sync part of an *empty* selection is not defined by the code
+            # (percentile of nothing raises), with or without truncation: reported separately, not judged here
+            api = "read"
+        apis.append(api)
+    return sels, apis
+
+
 def run_case(ctx, sc, rng=None):
-    """scenario {case:{kind,F,q,r,meta,quiet[,chop]}, fs, sparse} -> trace"""
+    """scenario {case:{kind,F,q,r,meta,quiet[,chop][,cq,cr]}, fs, sparse, env} -> trace"""
     rng = rng or np.random.default_rng(sc.get("seed", 0))
     case = dict(sc["case"])
+    env = dict(sc.get("env") or {})
     folder = Path(ctx.scratch) / "c11"
+    _clean(folder)                                # every scenario starts from the files it describes, nothing else
     if sc.get("sparse"):
-        binfile, nc, content = make_sparse(folder, case, sc["fs"], rng)
-        t = observe(binfile, case, sc["fs"], nc, content, _selectors(case["q"], large=True))
+        binfile, nc, content = make_sparse(folder, case, sc["fs"], rng, env)
+        sels, apis = _apis(sc, env, _selectors(case["q"], large=True), case["q"])
+        t = observe(binfile, case, sc["fs"], nc, content, sels, env=env, apis=apis)
         binfile.unlink()
     else:
         mk = dict(case)
         if case.get("chop"):
             # the stream that is physically there after chopping: chop * 5 frames of the q0 compressed ones
             mk["q"] = sc["q0"]
-        binfile, nc, content = make_small(folder, mk, sc["fs"], rng)
+        binfile, nc, content = make_small(folder, mk, sc["fs"], rng, env)
         early = None
-        if case.get("cq", -1) >= 0:
-            # what an early constructor saw: the same recording at another stage of writing (longer: more frames follow)
-            more = metagen.random_int16(rng, case["cq"] + 1, nc)
-            early = (content.tobytes() + more.tobytes())[:case["cq"] * case["F"] + case["cr"]]
-        t = observe(binfile, case, sc["fs"], nc, content, _selectors(case["q"]), early=early)
+        cq, cr = case.get("cq", -1), case.get("cr", 0)
+        if cq >= 0:
+            # what the object saw earlier: the same recording at another stage of writing (longer: more frames follow)
+            more = metagen.random_int16(rng, cq + 1, nc)
+            if case["kind"] == "cbin":
+                if cq and (nc, sc["fs"], cq) not in _CBIN_CACHE:
+                    _CBIN_CACHE[(nc, sc["fs"], cq)] = _compress(folder, more[:cq], nc, sc["fs"])
+                cb, ch = _CBIN_CACHE[(nc, sc["fs"], cq)] if cq else (b"", b"")
+                early = {binfile: cb, binfile.with_suffix(".ch"): ch}
+            else:
+                early = {binfile: (content.tobytes() + more.tobytes())[:cq * case["F"] + cr]}
+        sels, apis = _apis(sc, env, _selectors(case["q"]), case["q"])
+        t = observe(binfile, case, sc["fs"], nc, content, sels, early=early, env=env, apis=apis)
+    t["m0"] = case["meta"]
     t.pop("chop", None)
     return t
 
@@ -271,6 +578,34 @@ def key_of(t, clause):
 # ------------------------------------------------------------------------------------------
 # scenario sets
 # ------------------------------------------------------------------------------------------
+STYLES = ["path", "default", "str", "meta", "metakw", "link", "with"]
+
+
+def _env(rnd, case, *, hists=("deferred", "failed"), sparse=False):
+    """an environment for `case`: nothing in it changes what the property layer expects"""
+    F, kind = case["F"], case["kind"]
+    stream = rnd.choice(["ap", "lf", "np2", "3A"] + (["nidq"] if F <= 40 else []))
+    styles = [x for x in STYLES + (["chkw"] if kind == "cbin" else [])
+              if not (x == "default" and stream == "np2")       # the default channel sorting reorders a 4-shank probe
+              and not (sparse and x in ("metakw", "with"))]
+    forms = ["exact"] if (case["meta"] < 0 or sparse) else ["exact", "nofsb"] + (["fsbsize"] if kind != "cbin" else [])
+    env = {"stream": stream, "style": rnd.choice(styles), "form": rnd.choice(forms), "apis": True}
+    if not sparse:
+        env["sib"] = rnd.random() < 0.25
+        env["other"] = rnd.random() < 0.15
+    if case.get("cq", -1) >= 0:
+        env["hist"] = rnd.choice([h for h in hists if not (h in ("reopen", "reclose") and case["cq"] < 1)])
+        if env["hist"] in ("reopen", "reclose") and env["style"] == "with":
+            env["style"] = "path"
+    return env
+
+
+def _fts3(case, fs):
+    """fileTimeSecs written with 3 decimals: the frame count it announces is whatever that text times fs rounds to"""
+    text = f"{case['meta'] / fs:.3f}"
+    return dict(case, meta=int(round(float(text) * fs))), text
+
+
 def scenarios(ctx, exported):
     rnd = random.Random(ctx.seed)
     out = []
@@ -279,7 +614,7 @@ def scenarios(ctx, exported):
         c = rec["case"]
         rates = FS_ALL if not ctx.quick else [FS_ALL[i % len(FS_ALL)]]
         for fs in rates:
-            out.append({"case": c, "fs": fs, "exp": rec["exp"], "seed": rnd.randrange(2 ** 31)})
+            out.append({"case": c, "fs": fs, "exp": rec["exp"], "seed": rnd.randrange(2 ** 31), "env": _env(rnd, c)})
     # (b) 385 channels: every number of trailing bytes 0..769
     F = 770
     for r in range(F):
@@ -290,17 +625,43 @@ def scenarios(ctx, exported):
                 for kind in ("offline", "online"):
                     if ctx.quick and kind == "online" and r % 7:
                         continue
-                    out.append({"case": {"kind": kind, "F": F, "q": q, "r": r, "meta": m, "quiet": bool(r % 2)},
-                                "fs": FS_ALL[(r + q) % len(FS_ALL)], "seed": rnd.randrange(2 ** 31)})
+                    case = {"kind": kind, "F": F, "q": q, "r": r, "meta": m, "quiet": bool(r % 2)}
+                    fs = FS_ALL[(r + q) % len(FS_ALL)]
+                    env = _env(rnd, case)
+                    if rnd.random() < 0.2:
+                        c3, text = _fts3(case, fs)
+                        if r != 0 or (kind == "offline" and c3["meta"] != q):
+                            # (where open() rewrites the duration: one that is left as written, 3 decimals, is not a whole
+                            # number of frames, which the model's `meta` cannot express)
+                            case, env["fts_text"] = c3, text
+                    out.append({"case": case, "fs": fs, "seed": rnd.randrange(2 ** 31), "env": env})
         if r % (97 if ctx.quick else 11) == 0:
-            out.append({"case": {"kind": "online", "F": F, "q": 50, "r": r, "meta": -1, "quiet": bool(r % 2)},
-                        "fs": 30000, "seed": rnd.randrange(2 ** 31)})
+            case = {"kind": "online", "F": F, "q": 50, "r": r, "meta": -1, "quiet": bool(r % 2)}
+            out.append({"case": case, "fs": 30000, "seed": rnd.randrange(2 ** 31), "env": _env(rnd, case)})
         if r % (41 if ctx.quick else 7) == 0:
             # Reader(open=False) constructed at another stage of the file (matching the metadata or not), opened afterwards
-            for cq, cr, m in ((50, 0, 50), (50, 0, 40), (40, r, 40), (61, 5, 50), (30, 0, 30)):
+            for j, (cq, cr, m) in enumerate(((50, 0, 50), (50, 0, 40), (40, r, 40), (61, 5, 50), (30, 0, 30))):
                 q = 40 if cq != 40 else 47
-                out.append({"case": {"kind": "offline", "F": F, "q": q, "r": r, "meta": m, "quiet": True, "cq": cq, "cr": cr},
-                            "fs": FS_ALL[(r + cq) % len(FS_ALL)], "seed": rnd.randrange(2 ** 31)})
+                case = {"kind": "offline", "F": F, "q": q, "r": r, "meta": m, "quiet": True, "cq": cq, "cr": cr}
+                out.append({"case": case, "fs": FS_ALL[(r + cq) % len(FS_ALL)], "seed": rnd.randrange(2 ** 31),
+                            "env": _env(rnd, case, hists=("deferred",))})
+                # the other histories of one object, both kinds of reader, both values of ignore_warnings: opened before on
+                # that stage of the file (kept open or closed), a first open() that failed while the file was away
+                for kind in (("offline", "online") if not ctx.quick else (("offline", "online")[(r // 41 + j) % 2],)):
+                    case = {"kind": kind, "F": F, "q": q, "r": r, "meta": m, "quiet": bool((r + j) % 2), "cq": cq, "cr": cr}
+                    hists = ("reopen", "reclose", "failed") + (("deferred",) if kind == "online" or not case["quiet"] else ())
+                    out.append({"case": case, "fs": FS_ALL[(r + cq + 1) % len(FS_ALL)], "seed": rnd.randrange(2 ** 31),
+                                "env": _env(rnd, case, hists=hists)})
+    # (b') 5 channels: the histories around every small file: the object saw one frame more / fewer, or other trailing bytes
+    # (and 3, 9, 97 channels: a nidq stream, a saved subset of a probe)
+    grid = [(kind, F, q, r, cq, cr, m) for F in (10, 6, 18, 194) for kind in ("offline", "online") for q in (1, 2, 3, 4)
+            for r in (0, 1, F // 2, F - 1)
+            for cq, cr in ((q - 1, 0), (q + 1, 0), (q + 1, F - 1), (q, (r + 1) % F), (q + 2, 1))
+            for m in (q, cq, q + 1) + ((-1,) if kind == "online" else ())]      # -1: the metadata of a running acquisition
+    for kind, F, q, r, cq, cr, m in (grid if not ctx.quick else rnd.sample(grid, 72)):
+        case = {"kind": kind, "F": F, "q": q, "r": r, "meta": m, "quiet": rnd.random() < 0.5, "cq": cq, "cr": cr}
+        out.append({"case": case, "fs": rnd.choice(FS_MORE), "seed": rnd.randrange(2 ** 31),
+                    "env": _env(rnd, case, hists=("reopen", "reclose", "failed", "deferred"))})
     # (c) sparse files: float rounding of round(size / 2 / nc / fs * fs) at 1e6 .. 1e9 frames
     qs = [10 ** 6, 10 ** 7, 10 ** 8, 10 ** 9, 2 ** 24 + 1, 2 ** 30 - 1]
     nrand = 6 if ctx.quick else 60
@@ -311,22 +672,31 @@ def scenarios(ctx, exported):
             if ctx.quick:
                 rs = [0, rnd.choice(rs[1:3]), rnd.choice(rs[3:])]
             for r in rs:
-                for fs in (FS_ALL if not ctx.quick else [rnd.choice(FS_ALL)]):
+                for fs in (FS_ALL + [rnd.choice(FS_MORE[len(FS_ALL):])] if not ctx.quick else [rnd.choice(FS_MORE)]):
                     for kind in ("offline", "online"):
                         m = rnd.choice([q, q, q + 1, q - 1, q + rnd.randrange(1, 10 ** 5), 0])
-                        out.append({"case": {"kind": kind, "F": F, "q": q, "r": r, "meta": m, "quiet": True},
-                                    "fs": fs, "sparse": True, "seed": rnd.randrange(2 ** 31)})
-    # (d) compressed streams announcing fewer / more samples than the metadata; chopped streams
+                        case = {"kind": kind, "F": F, "q": q, "r": r, "meta": m, "quiet": True}
+                        out.append({"case": case, "fs": fs, "sparse": True, "seed": rnd.randrange(2 ** 31),
+                                    "env": _env(rnd, case, sparse=True)})
+    # (d) compressed streams announcing fewer / more samples than the metadata; chopped streams; the same object over
+    # two stages of the compressed stream
     for F in (10, 770):
         for q0 in ([7, 23] if ctx.quick else [1, 4, 5, 6, 7, 10, 11, 23, 40]):
             for m in sorted({q0, max(q0 - 3, 0), q0 + 1, q0 + 9, 0}):
                 fs = rnd.choice(FS_ALL)
-                out.append({"case": {"kind": "cbin", "F": F, "q": q0, "r": 0, "meta": m, "quiet": bool((q0 + m) % 2)}, "fs": fs,
-                            "seed": rnd.randrange(2 ** 31)})
+                case = {"kind": "cbin", "F": F, "q": q0, "r": 0, "meta": m, "quiet": bool((q0 + m) % 2)}
+                out.append({"case": case, "fs": fs, "seed": rnd.randrange(2 ** 31), "env": _env(rnd, case)})
             nchunks = -(-q0 // 5)
             for chop in range(1, nchunks):
                 out.append({"case": {"kind": "cbin", "F": F, "q": chop * 5, "r": 0, "meta": q0, "quiet": bool(chop % 2),
                                      "chop": chop}, "q0": q0, "fs": rnd.choice(FS_ALL), "seed": rnd.randrange(2 ** 31)})
+            combos = [(h, cq, m) for h in ("deferred", "reopen", "reclose", "failed") for cq in sorted({max(q0 - 3, 1), q0 + 6})
+                      for m in (q0, cq, q0 + 2)]
+            for h in ("deferred", "reopen", "reclose", "failed"):
+                for _, cq, m in ([rnd.choice([x for x in combos if x[0] == h])] if ctx.quick else [x for x in combos if x[0] == h]):
+                    case = {"kind": "cbin", "F": F, "q": q0, "r": 0, "meta": m, "quiet": rnd.random() < 0.5, "cq": cq, "cr": 0}
+                    out.append({"case": case, "fs": rnd.choice(FS_MORE), "seed": rnd.randrange(2 ** 31),
+                                "env": _env(rnd, case, hists=(h,))})
     return out
 
 
@@ -343,6 +713,10 @@ def _quiet_libs():
     import mtscomp
     mtscomp.tqdm = lambda x, **kw: x
     mtscomp.logger.setLevel(logging.CRITICAL)
+
+
+HIST_TEXT = {"deferred": "object constructed with open=False", "failed": "object constructed with open=False, and a first open() failed (file away),",
+             "reopen": "object opened a first time (left open)", "reclose": "object opened a first time and closed"}
 
 
 def check_records(ctx, scs, trs, label):
@@ -372,7 +746,9 @@ def check_records(ctx, scs, trs, label):
         c = t
         desc = (f"{c['kind']} reader, {c['q']} frames + {c['r']} trailing bytes of {c['F']}-byte frames, metadata announces "
                 f"{c['meta'] if c['meta'] >= 0 else 'nothing yet'}, fs={t['fs']}"
-                + (f", object constructed with open=False when the file held {c['cq']} frames + {c['cr']} bytes" if c.get("cq", -1) >= 0 else ""))
+                + (f", {HIST_TEXT[sc.get('env', {}).get('hist', 'deferred')]} when the file held {c['cq']} frames + {c['cr']} bytes"
+                   + (f" (metadata file: {c['m0']})" if c.get("m0", c["meta"]) != c["meta"] else "") if c.get("cq", -1) >= 0 else "")
+                + (f" [{c['env']}]" if c.get("env") else ""))
         if v["prop"]:
             key = key_of(t, v["prop"])
             classes[key] = classes.get(key, 0) + 1
@@ -396,7 +772,18 @@ def run(ctx):
     _quiet_libs()
     # 1. model: implementation layer => property layer, every stopping point of the writer
     cfg = "mc/ReaderOpen_quick.cfg" if ctx.quick else "mc/ReaderOpen_thorough.cfg"
-    r, exported = export_cases(ctx)
+    # (the two model self-tests and the symbolic check do not depend on anything else: they run next to the export;
+    #  all of them are over before the first real execution)
+    from concurrent.futures import ThreadPoolExecutor
+    from vkit import apalache
+    side = ThreadPoolExecutor(max_workers=3)
+    f_ro, f_rc = [side.submit(tlc.run, "sys/ReaderOpen.tla", c, workers=2, timeout=600)
+                  for c in ("mc/ReaderOpen_orig.cfg", "mc/ReaderOpen_cachedsize.cfg")]
+    f_ap = side.submit(apalache.check, "apalache/ReaderOpenInd.tla", "Init", "Theorem", 0)
+    try:
+        r, exported = export_cases(ctx)
+    finally:
+        side.shutdown(wait=True)
     if not ctx.quick:
         r2 = tlc.run("sys/ReaderOpen.tla", cfg, workers=4, timeout=1800)
         ctx.tlc(r2, cfg)
@@ -406,14 +793,18 @@ def run(ctx):
     if not r.ok:
         scs_cex = model_cex_scenarios(r)
     # model self-test: the implementation layer as it was before the fix: commits must violate the property layer
-    ro = tlc.run("sys/ReaderOpen.tla", "mc/ReaderOpen_orig.cfg", workers=2, timeout=600)
+    # (and the one before the third fix: the size cached by the constructor, which only the histories of an object show)
+    ro, rc = f_ro.result(), f_rc.result()
     if ro.ok or ro.invariant_violated not in ("OpenSucceeds", "Exposed", "WithinFile"):
         raise tlc.TLCError("model self-test: the pre-fix implementation layer (round to nearest frame, KeyError in the "
                            f"mismatch message) is not rejected by the property layer: {ro.invariant_violated}")
     ctx.cov["model_selftest_orig_variant_rejected"] = ro.invariant_violated
+    if rc.ok or rc.invariant_violated not in ("OpenSucceeds", "Exposed", "WithinFile") or int(rc.error_trace[-1].get("cbytes", -1)) < 0:
+        raise tlc.TLCError("model self-test: the implementation layer that compares the metadata with the size cached by the "
+                           f"constructor is not rejected on a deferred opening: {rc.invariant_violated}")
+    ctx.cov["model_selftest_cachedsize_variant_rejected"] = rc.invariant_violated
     # 1b. the same arithmetic for unbounded frame sizes / lengths / announced counts, discharged symbolically (Apalache)
-    from vkit import apalache
-    if not apalache.check("apalache/ReaderOpenInd.tla", "Init", "Theorem", 0):
+    if not f_ap.result():
         raise tlc.TLCError("spec/apalache/ReaderOpenInd.tla: the unbounded form of ByteFormsAgree / Exposed / OpenSucceeds does not hold")
     ctx.cov["unbounded_theorem"] = {"tool": "apalache-mc 0.58", "statement": "for all f >= 2, q >= 1, 0 <= r < f, m >= 0: byte and frame "
                                     "forms of the size test agree, n frames fit iff n <= q, the repaired open() exposes q frames and "
@@ -427,7 +818,8 @@ def run(ctx):
         trs.append(t)
         c = sc["case"]
         nontrivial = c["r"] != 0 or c["meta"] != c["q"]
-        ctx.count(1, key=(c["kind"], c["F"], c["q"], c["r"], c["meta"], c["quiet"], sc["fs"], c.get("cq", -1), c.get("cr", 0)) if nontrivial else None)
+        ctx.count(1, key=(c["kind"], c["F"], c["q"], c["r"], c["meta"], c["quiet"], sc["fs"], c.get("cq", -1), c.get("cr", 0),
+                          (sc.get("env") or {}).get("hist", "")) if nontrivial else None)
     bad = check_records(ctx, scs, trs, "readeropen")
     if not r.ok and not (set(range(len(scs_cex))) & bad):
         raise tlc.TLCError(f"the model violates {r.invariant_violated} but the real code does not on the counterexample: "
@@ -439,8 +831,11 @@ def run(ctx):
     selftest(ctx, trs, bad)
     ctx.cov["rule"] = ("model: every byte length F..(MaxFrames+1)F-1 x announced frames x reader kind; real files: every "
                        "exported case (F=4,10) x sampling rates, F=770 with every trailing count 0..769, sparse files of "
-                       "1e6..1e9 frames, .cbin/.ch vs .meta disagreement, chopped .cbin; non-trivial = trailing bytes "
-                       "present or metadata disagreeing with the size")
+                       "1e6..1e9 frames, .cbin/.ch vs .meta disagreement, chopped .cbin; histories of one object (constructed "
+                       "early, failed open, opened before with / without close) for the three kinds of reader; every scenario "
+                       "in a drawn environment (AP / LF / NP2.4 / 3A / nidq stream, spelling of the constructor call, form of the "
+                       "size / duration keys, stale sibling files, a second reader alive, API of each read); non-trivial = trailing "
+                       "bytes present or metadata disagreeing with the size")
     ctx.cov["exhaustive"] = True
     ctx.cov["numeric_postconditions"] = ["rl*fs and fileTimeSecs*fs projected to a frame count (1e-6 relative)",
                                          "values compared as float32(raw) * sample2volts, bit for bit"]
@@ -448,7 +843,10 @@ def run(ctx):
                         "frames physically present' is not defined for a broken zlib chunk; the compressed case is a "
                         ".ch chunk table shorter / longer than the .meta announces",
                         "metadata without fileTimeSecs (acquisition still running) is presented to OnlineReader only",
-                        "growth of the file after OnlineReader was constructed is not part of the property",
+                        "growth of the file after a reader was opened is judged only after the same object is opened again",
+                        "the sync part of an empty selection of a nidq stream with analog sync lines (np.percentile of nothing "
+                        "raises IndexError, truncated file or not) is not requested",
+                        "OnlineReader on a compressed file is not a use of it",
                         "TLC 32-bit integers: frame counts <= 1e9, sizes are carried as (frames, trailing bytes)"]
 
 
